@@ -1,6 +1,5 @@
 //@ tu: libxcm/core/attr_path.c
 //@ enforce: attr_pcomp_parse_index
-//@ pre-unwind: strtol.0:257 strtol.1:257
 //@ props: C10 C19
 //@ expect: postcondition>=6 canary=4
 #include "_unit.h"
